@@ -5,12 +5,12 @@ CONSTANTS
   StratSet = {"slow", "eratio", "ecount"}
   RatioNums = {0, 1, 2}
   CountNums = {2, 3}
-  MinAmts = {0, 1, 3}
-  Timeouts = {1, 3}
-  Geos = {21, 42}
-  ProbeNums = {0, 1, 2}
+  MinAmts = {1, 2}
+  Timeouts = {2}
+  Geos = {42}
+  ProbeNums = {0, 2}
   Steps = {1, 2}
-  MaxT = 7
+  MaxT = 5
   MaxReq = 4
   MaxInflight = 2
 VIEW view
